@@ -113,19 +113,14 @@ End Loop.
 Section Attempts.
 Variable R : Type.
 Variable isnull : R -> bool.
+Variable denull : R -> R.
 
-(* a real failure of the attempt: network fault, or a handler error with a non-empty message *)
-Definition plain_failure (a : attempt R) : bool :=
-  match a with
-  | APass (HOk _) => false
-  | APass (HErr true _) => false
-  | _ => true
-  end.
-
-Lemma plain_failure_not_ok : forall a, plain_failure a = true -> is_ok (outcome_of isnull a) = false.
+(* an attempt the application did not handle successfully never yields a reply: network faults, and
+   handler errors WHATEVER their message (server_method makes the message non-empty) *)
+Lemma unhandled_not_ok : forall a, handled a = false -> is_ok (outcome_of isnull denull a) = false.
 Proof.
   intros a H. destruct a as [| | | | | h]; try reflexivity.
-  destruct h as [r | e r]; cbn in H; try discriminate. destruct e; [discriminate | reflexivity].
+  destruct h as [r | e r]; cbn in H; [discriminate | reflexivity].
 Qed.
 
 Lemma firstn_map_in : forall A B (f : A -> B) n l y,
@@ -140,12 +135,12 @@ Proof.
 Qed.
 
 Lemma failures_reported : forall conn (l : list (attempt R)),
-  (forall a, In a (firstn retries l) -> plain_failure a = true) ->
-  c_result (call_attempts isnull conn l) = None.
+  (forall a, In a (firstn retries l) -> handled a = false) ->
+  c_result (call_attempts isnull denull conn l) = None.
 Proof.
   intros conn l H. unfold call_attempts, call. apply call_loop_all_fail.
   intros o Ho. destruct (firstn_map_in _ _ _ _ _ _ Ho) as [a [Ha E]]. subst o.
-  apply plain_failure_not_ok. apply H. exact Ha.
+  apply unhandled_not_ok. apply H. exact Ha.
 Qed.
 
 Lemma nth_error_map_some : forall A B (f : A -> B) l k y,
@@ -156,22 +151,48 @@ Proof.
   - apply IH. exact H.
 Qed.
 
-(* a reported success comes from an attempt in which the handler ran and either succeeded or failed
-   with an empty message; in both cases the reply is what the handler returned *)
+(* every success is the (de-nulled) reply of an attempt in which the handler succeeded *)
 Lemma success_source : forall conn (l : list (attempt R)) r,
-  c_result (call_attempts isnull conn l) = Some r ->
-  exists k, (k < retries)%nat /\ isnull r = false /\
-    (nth_error l k = Some (APass (HOk r)) \/ nth_error l k = Some (APass (HErr true r))).
+  c_result (call_attempts isnull denull conn l) = Some r ->
+  exists k r0, (k < retries)%nat /\ nth_error l k = Some (APass (HOk r0)) /\ r = denull r0 /\
+    forall j, (j < k)%nat -> exists a, nth_error l j = Some a /\ is_ok (outcome_of isnull denull a) = false.
 Proof.
   intros conn l r H. unfold call_attempts, call in H.
-  destruct (call_loop_success R retries conn _ r H) as [k [Hk [Hn _]]].
+  destruct (call_loop_success R retries conn _ r H) as [k [Hk [Hn Hb]]].
   destruct (nth_error_map_some _ _ _ _ _ _ Hn) as [a [Ha E]].
-  exists k. split; [exact Hk |].
   destruct a as [| | | | | h]; cbn in E; try discriminate.
-  destruct h as [r0 | e r0].
-  - cbn in E. destruct (isnull r0) eqn:N; [discriminate |]. inversion E; subst. split; [exact N | left; exact Ha].
-  - destruct e; cbn in E; [| discriminate].
-    destruct (isnull r0) eqn:N; [discriminate |]. inversion E; subst. split; [exact N | right; exact Ha].
+  destruct h as [r0 | e r0]; cbn in E; [| discriminate].
+  destruct (isnull (denull r0)); [discriminate |]. inversion E; subst.
+  exists k, r0. split; [exact Hk |]. split; [exact Ha |]. split; [reflexivity |].
+  intros j Hj. destruct (Hb j Hj) as [o [Ho Fo]].
+  destruct (nth_error_map_some _ _ _ _ _ _ Ho) as [a' [Ha' E']]. subst o. exists a'. split; assumption.
+Qed.
+
+(* the server never sends null *)
+Hypothesis denull_ok : forall r, isnull (denull r) = false.
+
+Lemma handled_ok : forall r, outcome_of isnull denull (APass (HOk r)) = Ok (denull r).
+Proof. intro r. cbn. rewrite denull_ok. reflexivity. Qed.
+
+Lemma success_reported : forall conn (l : list (attempt R)) k r,
+  (k < retries)%nat -> nth_error l k = Some (APass (HOk r)) ->
+  (forall j, (j < k)%nat -> exists a, nth_error l j = Some a /\ handled a = false) ->
+  c_result (call_attempts isnull denull conn l) = Some (denull r).
+Proof.
+  intros conn l k r Hk Hn Hb. unfold call_attempts, call.
+  apply (call_loop_first_ok R retries conn _ k (denull r) Hk).
+  - rewrite nth_error_map, Hn. cbn [option_map]. rewrite handled_ok. reflexivity.
+  - intros j Hj. destruct (Hb j Hj) as [a [Ha Fa]].
+    exists (outcome_of isnull denull a). split; [rewrite nth_error_map, Ha; reflexivity | apply unhandled_not_ok; exact Fa].
+Qed.
+
+(* in particular a call whose first attempt is handled is a success after exactly one delivery *)
+Lemma handled_first : forall conn r (rest : list (attempt R)),
+  c_result (call_attempts isnull denull conn (APass (HOk r) :: rest)) = Some (denull r) /\
+  c_deliveries (call_attempts isnull denull conn (APass (HOk r) :: rest)) = 1%nat.
+Proof.
+  intros conn r rest. unfold call_attempts, call, retries. cbn [map call_loop].
+  rewrite handled_ok. split; reflexivity.
 Qed.
 End Attempts.
 
@@ -402,31 +423,103 @@ Proof.
   intros R conn outs Hl H. apply (call_loop_error_conn R retries conn outs); [unfold retries; lia | exact Hl | exact H].
 Qed.
 
-(* ---------- refutation witnesses (vm_compute) ---------- *)
-Definition bytes_null (b : bytes) : bool := match b with None => true | Some _ => false end.
+(* ---------- the library conventions alone (a server that does not normalise): the two former findings ---------- *)
+Lemma bytes_denull_ok : forall b, bytes_null (bytes_denull b) = false.
+Proof. intros [l |]; reflexivity. Qed.
 
-(* every attempt reaches a handler that fails with an empty error message and returns the zero reply *)
-Lemma empty_message_witness :
+(* every attempt reaches a handler that fails with an empty error message and returns the zero reply:
+   net/rpc alone reports a success; through server_method it is an error after three deliveries *)
+Lemma empty_message_raw_and_fixed :
   let l := [APass (HErr true (Some [])); APass (HErr true (Some [])); APass (HErr true (Some []))] in
-  (forall a, In a (firstn 3 l) -> handled a = false) /\
-  c_result (call_attempts bytes_null false l) = Some (Some []) /\
-  c_deliveries (call_attempts bytes_null false l) = 1%nat.
-Proof.
-  cbv zeta. split; [| vm_compute; split; reflexivity].
-  intros a H. cbn in H. repeat (destruct H as [H | H]; [subst a; reflexivity |]). contradiction.
-Qed.
+  c_result (call_attempts_raw bytes_null false l) = Some (Some []) /\
+  c_result (call_attempts bytes_null bytes_denull false l) = None /\
+  c_deliveries (call_attempts bytes_null bytes_denull false l) = 3%nat.
+Proof. vm_compute. repeat split. Qed.
 
-(* the handler succeeds with a nil byte slice: three deliveries and an error *)
-Lemma nil_reply_witness :
+(* the handler succeeds with a nil byte slice: the client library alone rejects the null result three times;
+   through server_method the call succeeds with the empty slice after one delivery *)
+Lemma nil_reply_raw_and_fixed :
   let l : list (attempt bytes) := [APass (HOk None); APass (HOk None); APass (HOk None)] in
-  (forall a, In a l -> handled a = true) /\
-  c_result (call_attempts bytes_null false l) = None /\
-  c_deliveries (call_attempts bytes_null false l) = 3%nat.
+  c_result (call_attempts_raw bytes_null false l) = None /\
+  c_deliveries (call_attempts_raw bytes_null false l) = 3%nat /\
+  c_result (call_attempts bytes_null bytes_denull false l) = Some (Some []) /\
+  c_deliveries (call_attempts bytes_null bytes_denull false l) = 1%nat.
+Proof. vm_compute. repeat split. Qed.
+
+(* ---------- NewPeer ---------- *)
+Lemma to_valid_ok : forall s, str_ok (to_valid s) = true.
 Proof.
-  cbv zeta. split; [| vm_compute; split; reflexivity].
-  intros a H. cbn in H. repeat (destruct H as [H | H]; [subst a; reflexivity |]). contradiction.
+  induction s as [| c s IH]; [reflexivity |].
+  destruct c as [c | b].
+  - cbn [to_valid]. cbn [str_ok forallb schar_ok]. exact IH.
+  - destruct s as [| [c' | b'] s'].
+    + reflexivity.
+    + cbn [to_valid] in *. cbn [str_ok forallb schar_ok] in *. exact IH.
+    + exact IH.
 Qed.
 
+Lemma to_valid_id : forall s, str_ok s = true -> to_valid s = s.
+Proof.
+  induction s as [| c s IH]; intro H; [reflexivity |].
+  cbn [str_ok forallb] in H. apply andb_true_iff in H. destruct H as [Hc Hs].
+  destruct c; [| discriminate]. cbn [to_valid]. rewrite (IH Hs). reflexivity.
+Qed.
+
+Lemma to_valid_idem : forall s, to_valid (to_valid s) = to_valid s.
+Proof. intro s. apply to_valid_id. apply to_valid_ok. Qed.
+
+Lemma new_peer_ok : forall key net mon, str_ok key = true -> peer_str_ok (new_peer key net mon) = true.
+Proof.
+  intros key net mon H. unfold peer_str_ok, new_peer. cbn [p_net p_key p_mon].
+  rewrite !to_valid_ok, H. reflexivity.
+Qed.
+
+(* the wire does not change a peer made by NewPeer *)
+Lemma new_peer_wire : forall key net mon, str_ok key = true ->
+  wire_peer (new_peer key net mon) = new_peer key net mon.
+Proof.
+  intros key net mon H. rewrite (wire_peer_ok _ (new_peer_ok key net mon H)). reflexivity.
+Qed.
+
+(* internal transactions as the code builds them: the peer through NewPeer (or decoded from JSON, which is the
+   same as far as validity goes), key and signature produced by the hex / base-36 encoders *)
+Definition built_itx (t : itx) : Prop :=
+  exists key net mon, str_ok key = true /\ str_ok (it_sig t) = true /\ it_peer t = new_peer key net mon.
+Definition built_block (b : block) : Prop :=
+  (forall t, In t (norm_slice (bo_itxs (bl_body b))) -> built_itx t) /\
+  (forall r, In r (norm_slice (bo_receipts (bl_body b))) -> built_itx (rc_itx r)) /\
+  oall (fun kv => str_ok (fst kv) && str_ok (snd kv)) (bl_sigs b) = true.
+Definition built_cresp (c : cresp) : Prop :=
+  forall r, In r (norm_slice (cr_receipts c)) -> built_itx (rc_itx r).
+
+Lemma built_itx_ok : forall t, built_itx t -> itx_str_ok t = true.
+Proof.
+  intros t [key [net [mon [Hk [Hs Hp]]]]]. unfold itx_str_ok. rewrite Hp, (new_peer_ok key net mon Hk), Hs. reflexivity.
+Qed.
+
+Lemma oall_of_in : forall A (f : A -> bool) s, (forall x, In x (norm_slice s) -> f x = true) -> oall f s = true.
+Proof. intros A f [l |] H; [| reflexivity]. cbn in *. apply forallb_forall. exact H. Qed.
+
+Lemma built_block_ok : forall b, built_block b -> block_str_ok b = true.
+Proof.
+  intros b [H1 [H2 H3]]. unfold block_str_ok, body_str_ok.
+  rewrite (oall_of_in _ itx_str_ok _ (fun t Ht => built_itx_ok t (H1 t Ht))).
+  rewrite (oall_of_in _ receipt_str_ok _ (fun r Hr => built_itx_ok _ (H2 r Hr))).
+  rewrite H3. reflexivity.
+Qed.
+
+Lemma roundtrip_built_block : forall b,
+  block_bytes_ok b = true -> built_block b -> through_block b = Some (strip_block b).
+Proof. intros b H1 H2. apply roundtrip_block; [exact H1 | apply built_block_ok; exact H2]. Qed.
+
+Lemma roundtrip_built_cresp : forall c,
+  cresp_bytes_ok c = true -> built_cresp c -> through_cresp c = Some (strip_cresp c).
+Proof.
+  intros c H1 H2. apply roundtrip_cresp; [exact H1 |]. unfold cresp_str_ok.
+  apply oall_of_in. intros r Hr. apply built_itx_ok. apply H2. exact Hr.
+Qed.
+
+(* a Peer that does not come from NewPeer (a literal with a stray byte in the moniker) still changes *)
 Definition bad_peer := mkPeer [Good 97] [Good 48] [Good 109; Bad 255] 0.
 Definition bad_block :=
   mkBlock (mkBody 1 2 3 (Some []) None (Some [255; 0]) (Some [Some [1; 2; 3; 4]; None; Some []])
